@@ -1229,7 +1229,78 @@ def run(rep: Report, ctx: Any) -> str:
     from .glue import check as keyword_glue
 
     keyword_glue(rep, ctx, "R01.11")
+    # ---- R01.12 -------------------------------------------------------------------------------------------------------------------------
+    _names_bound(rep, ctx, universe)
     return LEVEL
+
+
+# ---- R01.12 ---------------------------------------------------------------------------------------------------------------------------
+# A name that the *text* of a template reads inside a generated function (not a hole: holes are document names and are C18's subject)
+# has to be bound by something the generator writes: the function or an enclosing generated function (parameter, assignment, loop /
+# with / except target, import), the module level of the host template, an import line of the import universe (what headers and the
+# kinds' get_imports can contribute; that the kind at hand really contributes it is R01.1), or Python's builtins.  The generated
+# scopes are those of the C18 skeleton: macros expanded as events with their arguments substituted, so a destination text that a macro
+# builds from an argument (`"_temp_" + destination`) is read as the code it becomes.
+_BOUND_TEMPLATES = ("model.py.jinja", "endpoint_module.py.jinja", "client.py.jinja")
+_LAMBDA = re.compile(r"\blambda\b([^:]*):")
+_WALRUS = re.compile(r"([^\W\d]\w*)\s*:=")
+
+
+def _names_bound(rep: Report, ctx: Any, universe: set[str]) -> None:
+    import builtins
+
+    from ..skeleton import scan
+    from . import c18
+
+    rep.rule("R01.12", "every name that template text reads inside a generated function is bound by text the generator writes: in the "
+                       "function or an enclosing one, at module level of the host template, by an import line of the import universe, "
+                       "or it is a builtin (macros are expanded with their arguments, so a destination built from an argument is read as "
+                       "the code it becomes)")
+    ix = ctx.py
+    w = c18.CanonWalker(ctx.jinja, c18.type_idents(ix))
+    w.inner_required = c18.inner_properties_required(ix)
+    n_pairs = 0
+    for tn in _BOUND_TEMPLATES:
+        if tn not in ctx.jinja.templates:
+            rep.require(tn not in c18.TEMPLATES, f"template {tn}")
+            continue
+        root = scan(w.walk_template(tn), tn)
+        modbind = {e.name for e in root.events if not e.hole and e.kind in ("BIND", "PARAM", "ATTRBIND")}
+        seen: dict[tuple[str, str], Any] = {}
+
+        def rec(sc: Any, outer: frozenset[str]) -> None:
+            vis = outer
+            if sc.kind == "function":
+                here = {e.name for e in sc.events if not e.hole and e.kind in ("BIND", "PARAM")}
+                for e in sc.events:  # lambda parameters and walrus targets are bindings the scanner records as reads
+                    for m_ in _LAMBDA.finditer(e.text):
+                        here |= set(re.findall(r"[^\W\d]\w*", m_.group(1)))
+                    here |= set(_WALRUS.findall(e.text))
+                vis = outer | here
+                for e in sc.events:
+                    if e.kind != "READ" or e.hole:
+                        continue
+                    good = e.name in vis or e.name in modbind or e.name in universe or hasattr(builtins, e.name)
+                    k = (sc.path(), e.name)
+                    if k not in seen or (not good and seen[k][0]):
+                        seen[k] = (good, e)
+            for c_ in sc.children:
+                rec(c_, frozenset(vis))
+
+        rec(root, frozenset())
+        for (path, name), (good, e) in sorted(seen.items()):
+            n_pairs += 1
+            rep.check(good, "R01.12", f"{tn}::{path}::{name}::bound",
+                      f"the generated function {path} reads `{name}`, which nothing the generator writes binds (NameError when the line "
+                      f"runs), e.g. `{e.text.strip()[:100]}`", where=f"{PKG}/templates/{tn} (skeleton line {e.line})",
+                      lhs=f"read of `{name}`", rhs="bound in the function, an enclosing one, the module, the import universe or builtins")
+    rep.floor("template_names_read_in_generated_functions", n_pairs, 120)
+    from ..skelscan import scan_lines
+
+    ctl = scan_lines(["def f(src):", "    _tmp_out[src] = []", "    return out"], [], [], "control")
+    fsc = ctl.children[0]
+    bound = {e.name for e in fsc.events if not e.hole and e.kind in ("BIND", "PARAM")}
+    rep.control("R01.12 unbound destination", {e.name for e in fsc.events if e.kind == "READ" and not e.hole} - bound >= {"_tmp_out", "out"})
 
 
 # ---- R01.2 ----------------------------------------------------------------------------------------------------------------------------
